@@ -31,7 +31,7 @@ CHECKS = {
     "C02": dict(
         cat="model_checking", ref="5.C02",
         technique="TLA+ oracle (WellFormed/CSegDecode written from the format text) + relational encoder model-checked by TLC; TLC-enumerated arrays replayed on the real encoder; real encode/decode cases trace-validated against the oracle",
-        text="TLC runs a relational compressed_segmentation encoder (any table order, sharing, placement, width, padding index) over every array of a bounded scope (chunks and blocks <= 2x2x2, 1-2 channels, uint32/uint64) and proves IsEncodingOf => WellFormed /\\ CSegDecode = array, and that the decoder automaton reads it back. Every real encoder output of the run is judged by the same oracle operators (a reader written from the format text, plus the package's own decoder): the TLC-enumerated scope plus seeded shapes 1..9, blocks 1..8 including non-cubic, every bit width 0..32, labels above 2^32 and 2^53, repeated tables. Multi-step histories on ONE PrecomputedIO object (several compressed_segmentation scales with DIFFERENT block sizes, several chunks of equal shape): the stored bytes are judged under the block size the info announces and the arrays returned by read_chunk are recorded only after the last call (aliasing).",
+        text="TLC runs a relational compressed_segmentation encoder (any table order, sharing, placement, width, padding index) over every array of a bounded scope (chunks and blocks <= 2x2x2, 1-2 channels, uint32/uint64) and proves IsEncodingOf => WellFormed /\\ CSegDecode = array, and that the decoder automaton reads it back. Every real encoder output of the run is judged by the same oracle operators (a reader written from the format text, plus the package's own decoder): the TLC-enumerated scope plus seeded shapes 1..9, blocks 1..8 including non-cubic, every bit width 0..32, labels above 2^32 and 2^53, repeated tables. Multi-step histories on ONE PrecomputedIO object (several compressed_segmentation scales with DIFFERENT block sizes, several chunks of equal shape): the stored bytes are judged under the block size the info announces and the arrays returned by read_chunk are recorded only after the last call (aliasing). Label arrays are also handed to the encoder in big-endian byte order and in non-contiguous / Fortran / read-only memory layouts.",
         note=TRUST + "; padding voxels are unconstrained; the 32-bit index width is exercised by one 41^3-block case."),
     "C03": dict(
         cat="model_checking", ref="5.C03",
@@ -46,7 +46,7 @@ CHECKS = {
     "C07": dict(
         cat="model_checking", ref="5.C07",
         technique="TLA+ oracle (OutShape, Stride, Majority, exact BlockMean half-even with edge/constant completion) and pairwise half-sum design model-checked by TLC; TLC-enumerated small arrays and seeded arrays run on the real downscalers and judged by the trace spec",
-        text="TLC proves that the pairwise half-sum design equals the exact BlockMean (half-even, edge/constant completion) and that InRange follows for all three methods on all small arrays (<= 3 per axis over {0,1,max}); all TLC-enumerated small-scope arrays and seeded arrays (shape 1..6 incl. odd and size-1 axes, 1-2 channels, the five Neuroglancer dtypes, type limits, all factor triples per method, four outside values) are run on the real downscalers and judged against OutShape, DType, InRange, BlockMean / Majority / Stride. 'auto' selection through get_downscaler with options, a type-limit block for every integer dtype, out-of-type outside values (weaker reading: only shape/dtype/range judged), and a deviation class computed by TLC (near = float64 rounding distance, gross = wrap-around/overflow) used for known-finding matching only.",
+        text="TLC proves that the pairwise half-sum design equals the exact BlockMean (half-even, edge/constant completion) and that InRange follows for all three methods on all small arrays (<= 3 per axis over {0,1,max}); all TLC-enumerated small-scope arrays and seeded arrays (shape 1..6 incl. odd and size-1 axes, 1-2 channels, the five Neuroglancer dtypes, type limits, all factor triples per method, four outside values) are run on the real downscalers and judged against OutShape, DType, InRange, BlockMean / Majority / Stride. 'auto' selection through get_downscaler with options, a type-limit block for every integer dtype, out-of-type outside values (weaker reading: only shape/dtype/range judged), and a deviation class computed by TLC (near = float64 rounding distance, gross = wrap-around/overflow) used for known-finding matching only. One downscaler object per (method, outside value, type) is re-used for arrays of every data type within a run.",
         note=TRUST + "; float32 data restricted to dyadic values with exactly representable means; known finding: uint64 averaging above 2^50 (float64 work type)."),
     "C08": dict(
         cat="model_checking", ref="5.C08",
@@ -86,7 +86,7 @@ CHECKS = {
     "C15": dict(
         cat="model_checking", ref="5.C15",
         technique="TLA+ Orientation spec (documentation-derived SrcIndex oracle + slice-window design with deviation switch) model-checked by TLC; real slices-to-precomputed conversions of provenance-coded stacks trace-validated voxel by voxel",
-        text="TLC proves on 48 codes x sizes <= 3x4x5 x chunk depths 1..6 that the documentation-derived SrcIndex is a bijection consistent with the letter semantics and that the slice-window design places every pixel exactly once (the 'minus1' stop deviation fails); real slices-to-precomputed runs for all 48 codes x slice-count classes (fewer than / equal to / multiple of / not a multiple of the chunk depth) x pixel types, PNG/TIFF, grey/RGB, 1-3 directories and storage options (incl. sharded sub-processes) are judged voxel by voxel and channel by channel by Trace_Orientation. Empty (all-black) slices are part of the input space: whole chunks of zeros must still be written.",
+        text="TLC proves on 48 codes x sizes <= 3x4x5 x chunk depths 1..6 that the documentation-derived SrcIndex is a bijection consistent with the letter semantics and that the slice-window design places every pixel exactly once (the 'minus1' stop deviation fails); real slices-to-precomputed runs for all 48 codes x slice-count classes (fewer than / equal to / multiple of / not a multiple of the chunk depth) x pixel types, PNG/TIFF, grey/RGB, 1-3 directories and storage options (incl. sharded sub-processes) are judged voxel by voxel and channel by channel by Trace_Orientation. Empty (all-black) slices are part of the input space: whole chunks of zeros must still be written. Entry points: command line in-process, real sub-process, and the function API called repeatedly in one process; stacks mixing 8- and 16-bit slices; invalid (short) stacks must be refused (oracle:InvalidStackAccepted).",
         note=TRUST + "; provenance-coded stacks <= 5x5x7 voxels x 6 channels; wall-clock limit per conversion stands in for 'never hangs'."),
     "C16": dict(
         cat="model_checking", ref="5.C16",
@@ -96,7 +96,7 @@ CHECKS = {
     "C17": dict(
         cat="model_checking", ref="5.C17",
         technique="TLA+ spec (Mesh: format/reader oracle, winding, mm->nm, VTK line grammar automaton, fragment-link tree) model-checked by TLC; TLC-enumerated reader inputs/round-trip/winding instances replayed on the real code; recorded real files, arrays, exceptions and directory trees trace-validated by Trace_Mesh",
-        text="TLC model-checks the mesh reader automaton against the format oracle on structurally enumerated inputs (declared count 0..3 and huge counts, every body length, boundary index values; every exit reachable), the writer layout/round trip on float32 bit patterns, and the winding identity on tetrahedra under all 48 signed permutation matrices plus shears and singular maps; the deviating switch positions (bound '>', struct.error on short header, no flip) are shown to violate. Every enumerated case is executed on the real reader/writer/affine transform, and seeded real runs (save->file->read, affine transforms with det >0/<0/=0, mesh-to-precomputed on nibabel GIfTI files incl. sub-processes, VTK export with 0-3 attribute sets, link-mesh-fragments trees, random/damaged byte strings) are re-encoded and judged clause by clause by the same oracle in TLC. Unit-change transforms (10^-6..10^6, both determinant signs): the winding rule is decided on the integer matrix, the scale travels as a rational.",
+        text="TLC model-checks the mesh reader automaton against the format oracle on structurally enumerated inputs (declared count 0..3 and huge counts, every body length, boundary index values; every exit reachable), the writer layout/round trip on float32 bit patterns, and the winding identity on tetrahedra under all 48 signed permutation matrices plus shears and singular maps; the deviating switch positions (bound '>', struct.error on short header, no flip) are shown to violate. Every enumerated case is executed on the real reader/writer/affine transform, and seeded real runs (save->file->read, affine transforms with det >0/<0/=0, mesh-to-precomputed on nibabel GIfTI files incl. sub-processes, VTK export with 0-3 attribute sets, link-mesh-fragments trees, random/damaged byte strings) are re-encoded and judged clause by clause by the same oracle in TLC. Unit-change transforms (10^-6..10^6, both determinant signs): the winding rule is decided on the integer matrix, the scale travels as a rational. Affine cases also run on read-only arrays and on arrays already passed through the function once; integer-typed GIfTI point sets go through mesh-to-precomputed.",
         note=TRUST + "; geometry uses integer/dyadic coordinates and matrices so IEEE arithmetic is exact; near-zero determinants with uncertain floating-point sign are not decided; gzip-stored files judged on decompressed content."),
     "C18": dict(
         cat="fault_enumeration", ref="5.C18",
